@@ -241,8 +241,9 @@ class World:
     def backup(self):
         """copy of the committed database on a plain sqlite3 connection with foreign keys on"""
         dst = sqlite3.connect(':memory:')
-        with db_session:
-            self.db.get_connection().backup(dst)
+        con = self.db.provider.pool.con          # outside any session: no transaction is open on it
+        if con is None: return None
+        con.backup(dst)
         dst.execute('PRAGMA foreign_keys = ON')
         return dst
 
